@@ -318,9 +318,17 @@ def approx_eq(a, b, _depth=0):
         if isinstance(a, (list, tuple, deque)):
             return len(a) == len(b) and all(approx_eq(x, y, _depth + 1) for x, y in zip(a, b))
         if isinstance(a, (set, frozenset)):
-            if a == b:
-                return all(any(approx_eq(x, y, _depth + 1) for y in b) for x in a)
-            return False
+            if len(a) != len(b):
+                return False
+            rest = list(b)
+            for x in a:
+                for i, y in enumerate(rest):
+                    if approx_eq(x, y, _depth + 1):
+                        del rest[i]
+                        break
+                else:
+                    return False
+            return True
         return bool(a == b)
     except Exception:
         return a is b
